@@ -229,7 +229,11 @@ def run(ctx):
                        "must be the caller's); every randomized producing call has its own distinguishable input; streams are written in "
                        "chunks with scheduling points and half of them closed twice; a SHARED-BUFFER phase in every scenario: all goroutines "
                        "pass the same message buffers (7 / 16 / 40 bytes) and shared AD buffers to the producing operations at once, "
-                       "results judged against Alone, all shared input buffers checked intact afterwards; keyset derivation for all 8 "
+                       "repeated 4x, plus one large shared message (64 KiB; 1 KiB salt) for the deterministic producers (DAEAD, MAC, PRF, "
+                       "deterministic signing, DeriveKeyset) so that a temporarily modified caller buffer is visible for long, and one "
+                       "harness goroutine that only READS the shared buffers during the phase (any library write to them is a race with "
+                       "it, and a content change it sees is recorded); results judged against Alone, all shared input buffers checked "
+                       "intact afterwards; keyset derivation for all 8 "
                        "derivable key types with distinct salts on a shared deriver and on derivers built per call; registry histories: random windows of <= 6 concurrent Register/Get/KmsRegister/"
                        "KmsGet/KmsClear calls on harness-owned type URLs and clients; all runs under the Go race detector")
     ctx.assumptions += ["schedules are sampled by the Go scheduler (several GOMAXPROCS values / seeds), not enumerated",
